@@ -23,6 +23,7 @@ import CpModel.UnreprIO
           aux = hook points `p+p…` (hooks), plugins `name=0|1+…` (engine), `-` otherwise
     cfgupd <global conf before> <F|S> <conf | sections>   → `K=<global config after> NS=<entries handed to the namespaces>` | `ERR` | `?`
           (cherrypy.config.update of a flat dict (F) or of an INI file / dict of sections (S); live environments table)
+    cfgset <global conf before> <key> <val>               → the same for `cherrypy.config[key] = val`
     fc <sections> <path> <key> <default: - | val>        → `V=<val>` | `V=-`
     build <ast>                                            → `ok <val>` | `err <class>`      (reprconf._Builder)
     ini <I|L> <DEFAULT options> <sections>                 → `ok <section>|<option>~<text>,…;…` | `err <kind>`
@@ -120,6 +121,12 @@ def step (line : String) : String :=
       | some (.error _) => "ERR"
       | some (.ok r) => s!"K={showConf (toDict r.config)} NS={showConf (toDict r.handed)}"
     | _, _ => "bad-op"
+  | ["cfgset", cfg, key, val] =>
+    match parseConf cfg, parseName key, parseVal val with
+    | some c, some k, some v =>
+      let r := ConfigUpdate.setItem (c.getD []) k v
+      s!"K={showConf (toDict r.config)} NS={showConf (toDict r.handed)}"
+    | _, _, _ => "bad-op"
   | ["nseff", which, key, val, aux] =>
     match parseName key, parseVal val with
     | some k, some v =>
